@@ -9,7 +9,7 @@ import random
 
 import torch
 
-from .. import bmgen, probes
+from .. import bmgen, env, probes
 
 ID = "C06"
 LEVEL = "exploration"
@@ -17,7 +17,8 @@ RULE = ("case = (mode a|b|c, configuration, two history seeds); non-trivial = >=
         ">= 1 was answered from >= 2 tree pieces (a, b) / >= 5 probes differ (c); distinct = distinct case keys")
 ASSUMPTIONS = ["dyadic mode: probes lie on the tolerance grid (times are quantised to tol by design)"]
 REQUIRED_COUNTERS = ["a_probes", "b_probes", "b_multi_piece", "c_probes", "b_with_A", "b_tree_wrapper",
-                     "b_histories_differ", "point_probes"]
+                     "b_histories_differ", "point_probes", "twin_under_default_float32", "b_offgrid_probes",
+                     "b_near_duplicate_queries"]
 CASE_TIMEOUT = 900
 
 
@@ -77,25 +78,49 @@ def run_case(case):
         if cfg["wrapper"] == "path":
             import numpy as np
             np.random.seed(cfg2["entropy"] % (2 ** 31))
-        bm2, base2, meta2 = bmgen.build(cfg2, step_hint=s1 if mode != "b" else s2)
+        # (a third of the twins lives under PyTorch's default dtype float32 while its sibling lives under float64: the
+        # objects carry an explicit dtype, so the process-wide default is not an "option" of the object)
+        f32_twin = mode in ("a", "b") and random.Random(case["p"] + 11).random() < 0.33 and cfg["wrapper"] != "path"
+        cnt["twin_under_default_float32"] = int(f32_twin)
+        with env.default_dtype(torch.float32 if f32_twin else torch.float64):
+            bm2, base2, meta2 = bmgen.build(cfg2, step_hint=s1 if mode != "b" else s2)
         points_ok = cfg["wrapper"] in ("interval", "path", "tree")
         for bmx, qx, rx in ((bm1, q1, r1), (bm2, q2, r2)):
-            for (a, b) in qx:
-                bmx(*bmgen.to_frame(cfg, a, b), **fl)
-                if points_ok and rx.random() < 0.05:
-                    # point evaluations are part of a history as well (for twins with the same history seed both
-                    # objects see the same ones; in dyadic mode they must not matter)
-                    bmx(bmgen.pick_time(cfg, rx, 0.6))
-            if points_ok:
-                bmx(bmgen.pick_time(cfg, rx, 1.0))
+            with env.default_dtype(torch.float32 if (f32_twin and bmx is bm2) else torch.float64):
+                for (a, b) in qx:
+                    bmx(*bmgen.to_frame(cfg, a, b), **fl)
+                    if points_ok and rx.random() < 0.05:
+                        # point evaluations are part of a history as well (for twins with the same history seed both
+                        # objects see the same ones; in dyadic mode they must not matter)
+                        bmx(bmgen.pick_time(cfg, rx, 0.6))
+                if points_ok:
+                    bmx(bmgen.pick_time(cfg, rx, 1.0))
         if mode == "b" and (q1 != q2):
             cnt["b_histories_differ"] = 1
         pr = _probes(cfg, random.Random(case["p"]))
+        if mode == "b" and cfg.get("tol", 0) > 0:
+            # dyadic mode, probes OFF the tolerance grid: the value may depend on the entropy, the options and the query
+            # itself - not on earlier queries, in particular not on earlier queries that coincide with the probe after
+            # rounding to the tolerance (the second twin is asked such near-duplicates first)
+            prng = random.Random(case["p"] + 5)
+            rd, tol = bmgen.grid_round(cfg), cfg["tol"]
+            for _ in range(6):
+                a, b = sorted([prng.uniform(cfg["t0"], cfg["t1"]), prng.uniform(cfg["t0"], cfg["t1"])])
+                if b - a < 5 * tol:
+                    continue
+                a2, b2 = a + prng.uniform(-0.4, 0.4) * tol, b + prng.uniform(-0.4, 0.4) * tol
+                if rd(a2) == rd(a) and rd(b2) == rd(b) and cfg["t0"] <= a2 < b2 <= cfg["t1"]:
+                    with env.default_dtype(torch.float32 if f32_twin else torch.float64):
+                        bm2(*bmgen.to_frame(cfg, a2, b2), **fl)
+                    cnt["b_near_duplicate_queries"] = cnt.get("b_near_duplicate_queries", 0) + 1
+                pr.append((a, b))
+                cnt["b_offgrid_probes"] = cnt.get("b_offgrid_probes", 0) + 1
         ndiff = 0
         for (a, b) in pr:
             o1 = _tup(bm1(*bmgen.to_frame(cfg, a, b), **fl))
             p1 = len(tp.last_pieces) if a < b and tp.last_pieces is not None else 1
-            o2 = _tup(bm2(*bmgen.to_frame(cfg, a, b), **fl))
+            with env.default_dtype(torch.float32 if f32_twin else torch.float64):
+                o2 = _tup(bm2(*bmgen.to_frame(cfg, a, b), **fl))
             cnt[f"{mode}_probes"] = cnt.get(f"{mode}_probes", 0) + 1
             if p1 >= 2:
                 cnt[f"{mode}_multi_piece"] = cnt.get(f"{mode}_multi_piece", 0) + 1
